@@ -449,6 +449,22 @@ def relayout(prog, root, src, layout):
     if lines and lines[-1] == "":
         lines.pop()
     newlines, first, last = [], {}, {}
+    if layout == "cmtline":
+        # long comments between the tokens of a line: what follows the closing bracket is still program text
+        cm = ["--[[c]]", "--[==[ ]] ]==]", "--[[ -- ]]", "--[=[]=]", "--[[x]]--[[y]]"]
+        out = []
+        for i, l in enumerate(lines):
+            toks = lua_tokens(l)
+            ind = l[:len(l) - len(l.lstrip())]
+            parts = []
+            for k, t in enumerate(toks):
+                if k and (i * 7 + k * 3) % 4 == 0:
+                    parts.append(cm[(i + k) % len(cm)])
+                parts.append(t)
+            if toks and i % 3 == 0:
+                parts.insert(0, cm[i % len(cm)])
+            out.append(ind + " ".join(parts))
+        return "\n".join(out) + "\n"
     if layout == "oneline":
         for i in range(1, len(lines) + 1):
             first[i] = last[i] = 1
@@ -476,12 +492,12 @@ def relayout(prog, root, src, layout):
 
 
 def render(prog, root, rng=None, extra_parens=0.0, layout="canon", eol="\n", semicolons=0.0):
-    r = Renderer(prog, rng, extra_parens, "canon" if layout in ("oneline", "tokline") else layout, semicolons)
+    r = Renderer(prog, rng, extra_parens, "canon" if layout in ("oneline", "tokline", "cmtline") else layout, semicolons)
     src = r.render(root)
     for nd in prog.nodes[1:]:
         if "ln" not in nd:
             nd["ln"] = [0, 0]
-    if layout in ("oneline", "tokline"):
+    if layout in ("oneline", "tokline", "cmtline"):
         src = relayout(prog, root, src, layout)
     # the property's rule: an error names a line of the innermost statement (the line itself when
     # the statement is on one line).  A statement can span lines in every layout (an embedded
